@@ -24,6 +24,7 @@ from .c04 import closed_for_small
 
 PROP = "C05"
 TOL = Fraction(1, 10 ** 5)
+TOL_F = Fraction(1, 10)      # single precision (the property's tolerance for float)
 
 
 def group_tasks(tier):
@@ -82,7 +83,7 @@ def run_group(gname, s, tier="quick", seed=0, canary=False):
         if not G.rot:
             return
         for hn, f in fH.items():
-            pt = f.paths("taylor")
+            pt = f.paths(("taylor", "mixed"))
             if not pt:
                 continue
             pc = closed_for_small(f, G, rng)
@@ -90,8 +91,8 @@ def run_group(gname, s, tier="quick", seed=0, canary=False):
                 res.add("%s::%s/taylor" % (tag, hn), "error", "infra", 0.0, "closed path not identified %r" % f.count())
                 continue
             for k, p in enumerate(pt):
-                series_pairs(res, "%s::%s/taylor/p%d" % (tag, hn, k), mat_pairs(Hmat(p), Hmat(pc)), G, TOL, call=f.call(), pv=p)
-            edge = [v for v in f.views if v.status == "ok" and v.cls in ("edge", "mixed")]
+                series_pairs(res, "%s::%s/taylor/p%d" % (tag, hn, k), mat_pairs(Hmat(p), Hmat(pc)), G, (TOL if s == "d" else TOL_F), call=f.call(), pv=p)
+            edge = [v for v in f.views if v.status == "ok" and v.cls in ("edge",)]
             if edge:
                 res.unverified.append("%s::%s: %d measure-zero path(s) with |a_rot|^2 == eps2 exactly" % (ct, hn, len(edge)))
     guarded(res, tag + "::taylor", do_taylor)
